@@ -145,7 +145,7 @@ fn gen_case(rng: &mut Rng, cli_ranges: bool) -> (Vec<Rec>, Option<Vec<Rec>>, Cov
     };
     let cfg = CovCfg {
         k,
-        bin_size: if cli_ranges { rng.usize(5, 40) } else if rng.chance(1, 8) { 1_000_000 } else { rng.usize(1, 50) },
+        bin_size: if cli_ranges { rng.usize(5, 40) } else if rng.chance(1, 8) { 1_000_000 } else if rng.chance(1, 4) { rng.usize(1, 300) } else { rng.usize(1, 50) },
         bin_count: if cli_ranges { rng.usize(5, 40) } else { rng.usize(1, 40) },
         norm: rng.chance(1, 2),
         threads: rng.usize(1, 16),
@@ -425,6 +425,47 @@ pub fn manyrecs(ctx: &Ctx) -> Stats {
         }
         if idx % 5 == 0 {
             st.sample(Json::obj().set("cfg", cfg.json()).set("n_records", Json::u(recs.len())));
+        }
+    })
+}
+
+/// multiplicities that are *exact multiples* of the bin size, for bin sizes 1..=300: the read is present
+/// bin_size*j times, so each of its windows must land exactly in bin j (or the last bin)
+pub fn exact_multiples(ctx: &Ctx) -> Stats {
+    let sizes: Vec<usize> = if ctx.tier == Tier::Quick { (1..=300).step_by(7).chain([49, 98, 103, 107, 161, 255, 256, 257].into_iter()).collect() } else { (1..=300).collect() };
+    let n = sizes.len() as u64;
+    par_cases(ctx, n, |idx, st| {
+        let mut rng = Rng::keyed(ctx.seed, "c08.exact_multiples", idx);
+        let bin_size = sizes[idx as usize];
+        let k = rng.usize(7, 12);
+        // a read whose k-mers are pairwise distinct (checked), plus a second read with other multiplicity
+        let read: Vec<u8> = loop {
+            let r: Vec<u8> = (0..k + 24).map(|_| *rng.pick(b"ACGT")).collect();
+            let c = model::canonical_counts(&r, k);
+            if c.values().all(|&v| v == 1) {
+                break r;
+            }
+        };
+        let j = rng.usize(1, 5);
+        let copies = bin_size * j;
+        let other: Vec<u8> = (0..k + 10).map(|_| *rng.pick(b"ACGT")).collect();
+        let mut recs: Vec<Rec> = (0..copies).map(|i| Rec { id: format!("c{}", i), desc: None, seq: read.clone() }).collect();
+        recs.push(Rec { id: "other".into(), desc: None, seq: other });
+        let cfg = CovCfg { k, bin_size, bin_count: rng.usize(j + 1, j + 4), norm: idx % 2 == 0, threads: rng.usize(1, 8), mem_gb: *rng.pick(&[0.5f64, 6.0]), delim: " ".into(), alt: false };
+        let sc = Scratch::new(ctx, "c08x");
+        let inp = sc.write("in.fa", &ser::to_fasta(&recs, &SerOpts::plain()));
+        st.case(true, mix(idx) ^ mix(bin_size as u64));
+        let case = || Json::obj().set("cfg", cfg.json()).set("copies_of_one_read", Json::u(copies)).set("read", Json::bytes(&read)).set("n_records", Json::u(recs.len()));
+        match run_cov(&inp, None, &sc.subdir("o"), &cfg) {
+            Ok(d) => {
+                if let Err((sig, msg)) = check_vectors(&d, &recs, &recs, &cfg) {
+                    st.violate(&format!("{}:exact_multiple", sig), format!("bin size {} x {}: {}", bin_size, j, msg), case());
+                }
+            }
+            Err((sig, msg)) => st.violate(&sig, msg, case()),
+        }
+        if idx % 13 == 0 {
+            st.sample(Json::obj().set("bin_size", Json::u(bin_size)).set("multiplicity", Json::u(copies)).set("k", Json::u(k)));
         }
     })
 }
